@@ -2,6 +2,7 @@
 package c15
 
 import (
+	"io"
 	"bufio"
 	"bytes"
 	"context"
@@ -527,9 +528,32 @@ type PreCase struct {
 }
 
 func genPre(t *rapid.T) PreCase {
-	return PreCase{Kind: rapid.SampledFrom([]string{"cancelled", "expired"}).Draw(t, "kind"),
-		Prog: rapid.SampledFrom([]string{"BEGIN { while (1) n++ }", "{ n++ } END { while (1) n++ }", "function f() { while (1) n++ } BEGIN { f() }", "BEGIN { for (;;) { a[n++] = 1; if (n > 100000) n = 0 } }"}).Draw(t, "prog")}
+	return PreCase{Kind: rapid.SampledFrom([]string{"cancelled", "expired", "cancelled-by-reader"}).Draw(t, "kind"),
+		Prog: rapid.SampledFrom([]string{"BEGIN { while (1) n++ }", "{ n++ } END { while (1) n++ }", "function f() { while (1) n++ } BEGIN { f() }", "BEGIN { for (;;) { a[n++] = 1; if (n > 100000) n = 0 } }",
+			// nothing in the text repeats: it is the input that makes these run long (300000 records)
+			"{ n++ } END { print n }", "/x/", "{ print NR }", "$2 > 0 { s += $2 }", "NR % 2", "/x/, /y/ { c = c + 1 }", "{ $3 = NR } END { print }", "{ a[NR] = $0 }"}).Draw(t, "prog")}
 }
+
+type cancellingReader struct {
+	r      io.Reader
+	n      int
+	after  int
+	cancel context.CancelFunc
+}
+
+func (c *cancellingReader) Read(p []byte) (int, error) {
+	if len(p) > 4096 {
+		p = p[:4096]
+	}
+	n, err := c.r.Read(p)
+	c.n += n
+	if c.n >= c.after {
+		c.cancel()
+	}
+	return n, err
+}
+
+var preInput = strings.Repeat("x 1\ny 2\n", 150000)
 
 func runPre(x *h.Ctx, c PreCase) string {
 	prog, err := parser.ParseProgram([]byte(c.Prog), nil)
@@ -539,10 +563,21 @@ func runPre(x *h.Ctx, c PreCase) string {
 	var ctx context.Context
 	var cancel context.CancelFunc
 	want := context.Canceled
-	if c.Kind == "cancelled" {
+	var stdin io.Reader = strings.NewReader(preInput)
+	kind := c.Kind
+	if kind == "cancelled-by-reader" && (strings.HasPrefix(c.Prog, "BEGIN") || strings.HasPrefix(c.Prog, "function")) {
+		kind = "cancelled" // these never read their input
+	}
+	switch kind {
+	case "cancelled":
 		ctx, cancel = context.WithCancel(context.Background())
 		cancel()
-	} else {
+	case "cancelled-by-reader":
+		// the cancellation comes from outside the program, at a point the harness owns: the reader of the standard
+		// input cancels the context once it has handed over 64 KiB; more than 1.1 MB of records are still to come
+		ctx, cancel = context.WithCancel(context.Background())
+		stdin = &cancellingReader{r: strings.NewReader(preInput), after: 64 << 10, cancel: cancel}
+	default:
 		ctx, cancel = context.WithDeadline(context.Background(), time.Now().Add(-time.Second))
 		want = context.DeadlineExceeded
 	}
@@ -550,7 +585,7 @@ func runPre(x *h.Ctx, c PreCase) string {
 	it, _ := interp.New(prog)
 	done := make(chan error, 1)
 	go func() {
-		_, e := it.ExecuteContext(ctx, &interp.Config{Stdin: strings.NewReader("a\nb\n"), Output: &bytes.Buffer{}, Environ: []string{}})
+		_, e := it.ExecuteContext(ctx, &interp.Config{Stdin: stdin, Output: &bytes.Buffer{}, Environ: []string{}})
 		done <- e
 	}()
 	select {
@@ -653,6 +688,6 @@ func runWait(x *h.Ctx, c WaitCase) string {
 func init() {
 	h.Prop("never_cancelled_is_invisible", 6000, 100000, genInv, runInv)
 	h.Prop("prompt_stop_at_tick", 3000, 60000, genStop, runStop)
-	h.Prop("precancelled_and_expired", 40, 400, genPre, runPre)
+	h.Prop("precancelled_and_expired", 80, 800, genPre, runPre)
 	h.Enum("waits_interrupted", enumWait, runWait)
 }
